@@ -27,6 +27,7 @@ pub struct QPlayer {
     pub c1: u8,
     pub c2: u8,
     pub address: Option<String>,
+    pub address_quoted: bool,
 }
 
 #[derive(Debug, Clone)]
@@ -50,6 +51,12 @@ impl QState {
     pub fn gen(rng: &mut Rng, ver: Ver, n_players: usize, n_extras: usize) -> Self {
         let short = n_players > 20;
         let mut st = Self::gen_inner(rng, ver, n_players, n_extras, short);
+        // a variable whose key is the empty string is a variable like any other
+        if rng.chance(1, 8) && !st.extras.iter().any(|(k, _)| k.is_empty()) {
+            let v = rng.text1(10, Q_FORBID);
+            let at = rng.usize(0, st.extras.len());
+            st.extras.insert(at, (String::new(), v));
+        }
         // both spellings of a named variable: the primary one is decoded, the other is just another variable
         for (primary, alt, key) in [("hostname", "sv_hostname", st.name_key), ("mapname", "map", st.map_key), ("maxclients", "sv_maxclients", st.max_key)] {
             if key == primary && rng.chance(1, 5) {
@@ -92,7 +99,13 @@ impl QState {
                         skin: rng.text(if short { 2 } else { 8 }, NAME_FORBID),
                         c1: rng.b_u8(),
                         c2: rng.b_u8(),
-                        address: (ver != Ver::One && rng.chance(1, 3)).then(|| format!("{}.{}.{}.{}:{}", rng.u8(), rng.u8(), rng.u8(), rng.u8(), rng.below(65536))),
+                        address: (ver != Ver::One && rng.chance(1, 3)).then(|| match rng.below(4) {
+                            // the optional last field is whatever the server puts there: a team number, a port, ...
+                            0 => rng.below(4).to_string(),
+                            1 => format!("-{}", rng.below(70000)),
+                            _ => format!("{}.{}.{}.{}:{}", rng.u8(), rng.u8(), rng.u8(), rng.u8(), rng.below(65536)),
+                        }),
+                        address_quoted: rng.chance(2, 3),
                     }
                 })
                 .collect(),
@@ -141,7 +154,7 @@ impl QState {
             let line = match self.ver {
                 Ver::One => format!("{} {} {} {} {} {} {} {}", p.id, p.score, p.time, p.ping, q(&p.name, p.quoted), q(&p.skin, true), p.c1, p.c2),
                 _ => match &p.address {
-                    Some(a) => format!("{} {} {} {}", p.score, p.ping, q(&p.name, p.quoted), q(a, true)),
+                    Some(a) => format!("{} {} {} {}", p.score, p.ping, q(&p.name, p.quoted), q(a, p.address_quoted)),
                     None => format!("{} {} {}", p.score, p.ping, q(&p.name, p.quoted)),
                 },
             };
@@ -154,7 +167,10 @@ impl QState {
     }
 
     fn unused(&self) -> HashMap<String, String> {
-        let consumed = [self.name_key, self.map_key, self.max_key, self.version.as_ref().map(|v| v.0).unwrap_or("")];
+        let mut consumed = vec![self.name_key, self.map_key, self.max_key];
+        if let Some((k, _)) = &self.version {
+            consumed.push(k);
+        }
         self.pairs().into_iter().filter(|(k, _)| !consumed.contains(&k.as_str())).collect()
     }
 
